@@ -109,9 +109,9 @@ func solve(w *World, o *Obl, tier string, keepQuery bool) *Result {
 	if keepQuery {
 		r.Query = q
 	}
-	first, full := 2, 20
+	first, full := 2, 45
 	if tier == "thorough" {
-		first, full = 3, 90
+		first, full = 3, 120
 	}
 	t0 := time.Now()
 	defer func() { r.Seconds = time.Since(t0).Seconds() }()
